@@ -3,6 +3,7 @@
 use crate::engine::*;
 
 pub mod c05;
+pub mod c11;
 pub mod c12;
 pub mod c13;
 pub mod c16;
@@ -16,6 +17,7 @@ pub type ReplayFn = fn(&mut Ctx, &str, &[u8]) -> Result<Option<String>, Fail>;
 pub fn registry(id: &str) -> Option<(&'static str, fn(&mut Ctx), ReplayFn)> {
     Some(match id {
         "C05" => ("C05", c05::run, c05::replay),
+        "C11" => ("C11", c11::run, c11::replay),
         "C12" => ("C12", c12::run, c12::replay),
         "C13" => ("C13", c13::run, c13::replay),
         "C16" => ("C16", c16::run, c16::replay),
@@ -27,7 +29,7 @@ pub fn registry(id: &str) -> Option<(&'static str, fn(&mut Ctx), ReplayFn)> {
     })
 }
 
-pub const ALL_IDS: &[&str] = &["C05", "C12", "C13", "C16", "C17", "C18", "C19", "C20"];
+pub const ALL_IDS: &[&str] = &["C05", "C11", "C12", "C13", "C16", "C17", "C18", "C19", "C20"];
 
 /// E4: replay every committed reproduction of this property.
 /// A file that matches an *open* known finding prints its KNOWN-FINDING line;
